@@ -94,6 +94,8 @@ func (u *fetchUnit) memoryAccess(r fuReq) error {
 func (u *fetchUnit) reset(pc int32, cleanPending bool) {
 	u.ctx.IncSequenceID()
 	u.Reset()
+	// The unit has an instruction to fetch again (as in MVP-5)
+	u.complete = false
 	u.pc = pc
 	u.toCleanPending = cleanPending
 }
